@@ -71,7 +71,7 @@ def gen_pipeline(rng):
     steps = []
     for _ in range(rng.choice([0, 1, 2, 2, 3, 4, 5])):
         k = rng.choice(["shuffle", "shuffle", "take", "slice", "reservoir", "sort", "scale", "impute", "where", "noise", "riffle", "flatten", "binary", "sparse", "dense",
-                        "repr", "cycle", "params", "batch", "logged", "ope", "cache", "cache", "chunk", "fan", "logged-local"])
+                        "repr", "cycle", "params", "batch", "logged", "ope", "cache", "cache", "chunk", "fan", "logged-local", "grounded"])
         if k == "shuffle": steps.append(("shuffle", (rng.randrange(0, 9),)))
         elif k == "take": steps.append(("take", (rng.choice([0, 1, 3, 10, 50]), rng.random() < 0.3)))
         elif k == "slice": steps.append(("slice", (rng.choice([None, 0, 2]), rng.choice([None, 5, 30]), rng.choice([1, 2]))))
@@ -91,6 +91,7 @@ def gen_pipeline(rng):
         elif k == "ope": steps.append(("ope", ("IPS",)))
         elif k == "fan": steps.append(("fan", (rng.randrange(1, 9), rng.randrange(1, 9))))
         elif k == "logged-local": steps.append(("logged-local", (rng.randrange(1, 5),)))
+        elif k == "grounded": steps.append(("grounded", (rng.choice([2, 5]), 2, rng.choice([3, 6]), 2, rng.randrange(1, 5))))
         else: steps.append((k, ()))
     def build(caller_data=None):
         E = coba.Environments
@@ -161,6 +162,12 @@ def run_pipelines(ctx, n_cases):
                 del HELD[:]
                 twin = build()
                 ref = read_all(twin[-1])
+                ref_params = canon_val(dict(twin[-1].params))      # what an environment that has simply been read reports
+                def params_sig(p, upto):
+                    # known shape: an unread supervised environment written by save() is stored with the params it had before it was read (no n_actions)
+                    lost = [kv for kv in ref_params["__sparse__"] if kv not in p["__sparse__"]]; extra = [kv for kv in p["__sparse__"] if kv not in ref_params["__sparse__"]]
+                    if not extra and [k for k, _ in lost] == ["n_actions"] and any(x[0] == "save" for x in hist[:upto]): return ["reread", "params-differ-from-twin", "saved-before-read", "n_actions"]
+                    return ["reread", "params-differ-from-twin"]
                 del HELD[:]
             except Exception as e:
                 ctx.count("pipeline:incompatible", repr(case), False); continue
@@ -187,7 +194,9 @@ def run_pipelines(ctx, n_cases):
                     elif h[0] == "params":
                         p = canon_val(dict(env.params))
                         if params_seen is not None and p != params_seen: ctx.fail(["reread", "params-changed"], "params %r then %r" % (params_seen, p), dict(case, step=step)); break
-                        if any(x[0] == "full" for x in hist[:step]): params_seen = p
+                        if any(x[0] == "full" for x in hist[:step]):
+                            params_seen = p
+                            if p != ref_params: ctx.fail(params_sig(p, step), "params after a complete read are %r, an identical environment that was simply read reports %r" % (p, ref_params), dict(case, step=step)); break
                     elif h[0] == "pickle":
                         env = pickle.loads(pickle.dumps(env))
                     elif h[0] == "materialize":
@@ -196,7 +205,9 @@ def run_pipelines(ctx, n_cases):
                         path = os.path.join(work, "e%d.zip" % idx)
                         env = coba.Environments(env).save(path, overwrite=True)[0]
                 else:
-                    if any(l.n != 0 for l in HELD): ctx.fail(["reread", "caller-learner-trained"], "the learner object passed to logged(...) was trained by reading the environment (it has learned %s times)" % [l.n for l in HELD], case)
+                    p = canon_val(dict(env.params))
+                    if p != ref_params: ctx.fail(params_sig(p, len(hist)), "params after the history are %r, an identical environment that was simply read reports %r" % (p, ref_params), case)
+                    elif any(l.n != 0 for l in HELD): ctx.fail(["reread", "caller-learner-trained"], "the learner object passed to logged(...) was trained by reading the environment (it has learned %s times)" % [l.n for l in HELD], case)
                     elif caller is not None and caller != snapshot: ctx.fail(["reread", "caller-data-modified"], "the X/Y lists passed to from_supervised were modified by reading", case)
                     else: ctx.sample(dict(case=case, n_ref=len(ref)), cap=4)
             except Exception as e:
@@ -252,6 +263,19 @@ def corpus(ctx):
     p = dict(env.params)
     if read_all(env) != ref or p.get("shuffle_seed", p.get("shuffle")) not in (1, None) and 1 not in p.values():
         ctx.fail(["reread", "full-read-differs", "full"], "logged Shuffle(1): a read dropped after one item changed the next read / params %r" % p, dict(what="corpus logged-shuffle-partial"))
+
+    # a kept (materialized / cached) grounded environment hands out the same feedback objects on every read: a long one read twice
+    for how in ("materialize", "cache"):
+        ctx.count("corpus", "grounded-" + how)
+        try:
+            e = coba.Environments.from_linear_synthetic(700, n_actions=3, n_context_features=1, n_action_features=0, seed=2).grounded(5, 3, 6, 3, 1)
+            env = e.materialize()[0] if how == "materialize" else e.cache()[0]
+            a = read_all(env); b = read_all(env)
+            if a != b:
+                i = next(i for i, (x, y) in enumerate(zip(a, b)) if x != y)
+                ctx.fail(["reread", "full-read-differs", "grounded"], "a %sd grounded environment of 700 interactions read twice differs at interaction %d: feedbacks %r then %r" % (how, i, a[i].get("feedbacks"), b[i].get("feedbacks")), dict(what="corpus grounded-" + how))
+        except Exception as ex:
+            ctx.fail(["reread", "raises", errname(ex), "grounded"], "grounded corpus case raised %s: %s" % (errname(ex), str(ex)[:100]), dict(what="corpus grounded-" + how))
 
 def siblings(ctx, n_cases):
     """several environments built by one Environments call chain: what one of them yields does not depend on whether (or in which order) its siblings were read, nor on pickling"""
